@@ -245,8 +245,10 @@ Inductive pt :=
 | Rep (body : pt) (count : expr) (cs : list constr) (ms : list (expr * expr))
 | For (body : pt) (idx : ident) (start stop step : expr) (cs : list constr) (ms : list (expr * expr))
 | Map (inner : pt) (m : list (ident * expr)) (cs : list constr)
-| Ren (inner : pt) (r : list (ident * ident)).                                (* the channel_mapping of a MappingPT:
+| Ren (inner : pt) (r : list (ident * ident))                                 (* the channel_mapping of a MappingPT:
                                                                                  inner channel -> outer channel *)
+| ParT (inner : pt) (owt : list (ident * expr)).                              (* ParallelChannelPT whose values are all
+                                                                                 time dependent: channel, e for e*t *)
 
 (* ArithmeticAtomicPT(lhs, op, rhs, measurements): both operands are built, a waveform exists iff one of them has one;
    windows = own + lhs + rhs; no constraints.  TimeReversalPT delegates to the inner template. *)
@@ -278,6 +280,7 @@ Fixpoint pnames (p : pt) : list ident :=
       remove_id i (pnames body) ++ (vars a ++ vars b ++ vars st) ++ cvars_l cs ++ mvars_l ms
   | Map inner m cs => vars_l (map snd m) ++ cvars_l cs
   | Ren inner _ => pnames inner
+  | ParT inner owt => pnames inner ++ vars_l (map snd owt)
   end.
 
 Fixpoint dedup (l : list ident) : list ident :=
@@ -310,6 +313,7 @@ Fixpoint construct (p : pt) : pt :=
   | For body i a b st cs ms => For (construct body) i a b st cs ms
   | Map inner m cs => mk_map (construct inner) m cs
   | Ren inner r => Ren (construct inner) r
+  | ParT inner owt => ParT (construct inner) owt
   end.
 
 (* ---------------------------------------------------------------- instantiation -------------------------------- *)
@@ -374,6 +378,17 @@ Definition eager (s : scope) (m : list (ident * expr)) (cs : list constr) : resu
   else if negb (subset (vars_l (map snd m) ++ cvars_l cs) (skeys s)) then Err Missing
   else bind (validate s cs) (fun _ => bind (eval_mapping s m) (fun l => Ok (SDict l))).
 
+(* ParallelChannelPT._get_overwritten_channels_values with time dependent values e*t (t is not a parameter): each
+   kept value is substituted symbolically (evaluate_symbolic iterates parameters.items() = as_dict: every key forced;
+   no check that the names are present); ParallelChannelTransformation then asserts that only t is left
+   (AssertionError).  Nothing is evaluated when every such channel is dropped (/repo 1b3543b). *)
+Definition tdep (s : scope) (owt : list (ident * expr)) (dr : list ident) : result unit :=
+  match kept dr owt with
+  | [] => Ok tt
+  | es => if negb (forced_ok s) then Err Missing
+          else if forallb (res_closed (lookup s)) es then Ok tt else Err Other
+  end.
+
 Definition ms_of (p : pt) : list (expr * expr) :=
   match p with
   | Atom _ _ _ _ _ ms | AMC _ _ ms | Seq _ _ ms | Rep _ _ _ ms | For _ _ _ _ _ _ ms => ms
@@ -407,6 +422,8 @@ Fixpoint build (p : pt) (s : scope) (drop : list ident) {struct p} : result bool
         if w then bind (scalar s (sa ++ kept drop sc)) (fun _ => Ok true) else Ok false)
   | Map inner m cs => bind (eager s m cs) (fun s' => build inner s' drop)
   | Ren inner r => build inner s (ren_drop r drop)
+  | ParT inner owt =>
+      bind (build inner s drop) (fun w => if w then bind (tdep s owt drop) (fun _ => Ok true) else Ok false)
   | _ => Err Other
   end.
 
@@ -420,6 +437,7 @@ Fixpoint meas_at (p : pt) (s : scope) {struct p} : result unit :=
   | Ari inner _ _ => meas_at inner s
   | Map inner m cs => bind (eager s m cs) (fun s' => meas_at inner s')
   | Ren inner _ => meas_at inner s
+  | ParT inner _ => meas_at inner s
   | _ => Err Other
   end.
 
@@ -444,6 +462,7 @@ Fixpoint run (p : pt) (s : scope) (drop : list ident) {struct p} : result bool :
       bind (meas s ms) (fun _ => fold_or (fun v => run body (SRange s i v) drop) (zrange a' b' st'))))))
   | Map inner m cs => bind (validate s cs) (fun _ => run inner (SMapped s m) drop)
   | Ren inner r => run inner s (ren_drop r drop)
+  | ParT inner owt => bind (tdep s owt drop) (fun _ => run inner s drop)
   end.
 
 (* PulseTemplate.create_program(parameters=values, channel_mapping=...) on the constructed template *)
